@@ -42,7 +42,7 @@ func drawPlan(t *rapid.T, sampleBytes int) (string, []int) {
 		}
 		return kind, p
 	case "pow2-remainder": // first a read that leaves n - j*2^p - r bytes filled (r < 600): what remains is "a few buffers plus a small tail"; then full reads
-		p := rapid.IntRange(9, 16).Draw(t, "p")
+		p := rapid.SampledFrom([]int{9, 12, 13, 15, 16, 16}).Draw(t, "p") // 512 B sectors, 4/8 KiB pages, 32/64 KiB copy and pipe buffers
 		j := rapid.IntRange(1, max(1, sampleBytes>>uint(p))).Draw(t, "j")
 		first := sampleBytes - j<<uint(p) - rapid.IntRange(0, 600).Draw(t, "r")
 		if first < 1 {
